@@ -51,6 +51,17 @@ type c03Struct struct {
 
 type c03Stamp int64
 
+// fresh pointers as keys, inserted in a varying order
+func c03PointerKeys(r *core.Rand) map[*int]string {
+	m := map[*int]string{}
+	for _, i := range r.Perm(4) {
+		k := new(int)
+		*k = (i + 1) * 11
+		m[k] = fmt.Sprintf("p%d", i)
+	}
+	return m
+}
+
 // integer keys of which several round to the same float64, inserted in a varying order
 func c03BigKeys(r *core.Rand) map[int64]string {
 	keys := []int64{1 << 53, 1<<53 + 1, 1<<53 + 2, 1<<53 + 3, -(1 << 53) - 1, -(1 << 53) - 2, 7, 1<<62 + 1, 1<<62 + 2, 1<<62 + 3}
@@ -157,6 +168,8 @@ func (p *c03) gen(seed uint64, idx int) c03Case {
 		// a NaN key among numeric keys; channels, functions and pointers handed to print, format and dump
 		"{% for k, v in nanm %}{{ k }}={{ v }};{% endfor %}", "{{ nanm|keys|join(',') }}|{{ nanm|first }}|{{ nanm|last }}", "{{ nanm }}|{{ nanm|json_encode|length }}", "{{ nanm|merge(ik)|keys|join(',') }}",
 		"{{ ch }}|{{ fn }}|{{ [ch, fn] }}", "{{ '%v %v'|format(p, ps) }}|{{ '%d'|format(p) }}|{{ '%s'|format(pstr) }}", "{{ dump(mp) }}|{{ dump(p) }}|{{ dump(st) }}", "{{ dump(ps, lp) }}|{{ '%v'|format(mp) }}|{{ '%v'|format(pp) }}", "{{ {'c': ch}|join }}{{ dump(ch)|length > 0 ? 'd' : 'n' }}",
+		// pointers as map keys and several NaN keys, printed
+		"{{ pkm }}|{{ nan3 }}", "{{ [pkm, nan3] }}|{{ {'k': nan3, 'p': pkm} }}", "{{ pkm ~ '' }}{{ '%v'|format(nan3) }}|{{ dump(pkm)|length > 0 ? 'd' : 'n' }}",
 		// integer keys beyond 2^53 (neighbours that are one float64); two failing values in one include
 		"{% for k, v in bigk %}{{ k }}={{ v }};{% endfor %}|{{ bigk|keys|join(',') }}|{{ bigk|first }}{{ bigk|last }}", "{{ bigk }}|{{ bigk|json_encode|length }}|{% for v in bigk %}{{ v }}{% endfor %}",
 		"{% include 'inc' with {'alpha': nosuch_a(), 'beta': nosuch_b(), 'gamma': nosuch_c(), 'delta': nosuch_d()} %}", "{% include 'inc' with {'eps': 1 / 0, 'beta': nosuch_b(1), 'zeta': [] .x.y} only %}",
@@ -313,7 +326,7 @@ func (c c03Case) buildCtx(variant uint64) map[string]interface{} {
 	at := time.Date(2024, 1, 2, 3, 4, 5, 0, zone)
 	u, _ := url.Parse("https://example.org/a?b=c")
 	return map[string]interface{}{
-		"bigk": c03BigKeys(r),
+		"bigk": c03BigKeys(r), "pkm": c03PointerKeys(r), "nan3": map[float64]string{math.NaN(): "a", math.NaN(): "b", math.NaN(): "c", 1.5: "x", math.Float64frombits(0x7ff8000000000001): "d"},
 		"ts32": int32(34560000), "tsu": uint(34560001), "tsf": float32(34560000), "tsn": json.Number("34560002"), "pd": &at, "tsnamed": c03Stamp(34560003),
 		"visit":  c03Visit{Page: "home", at: at},
 		"visits": []c03Visit{{Page: "a", at: at}, {Page: "b", at: at.Add(time.Hour)}},
